@@ -82,6 +82,7 @@ func main() {
 	verbose := flag.Bool("v", false, "verbose")
 	params := flag.String("params", "", "harness parameters k=v,k=v (vpParam)")
 	cpuprof := flag.String("cpuprofile", "", "write CPU profile")
+	specFile := flag.String("spec", "", "JSON file: list of {harness, params, max-paths, max-decisions, max-steps, timeout, models}; run in order after one program load")
 	replayModel := flag.String("replay-model", "", "JSON file with {inputs:[...]}: run the harness concretely on this model")
 	flag.Parse()
 
@@ -143,10 +144,59 @@ func main() {
 		solverDesc = "libz3 " + libZ3Version() + " in-process via Z3_eval_smtlib2_string (SMT-LIB2 text, push/pop per path), options: " + strings.TrimSpace(strings.TrimPrefix(*solver, "lib"))
 	}
 	ro := RunOutput{Repo: *repo, LoadS: loadS, Config: E.cfg, Solver: solverDesc}
+	// -spec: one program load serves many harness runs, each with its own parameters and budgets
+	type runSpec struct {
+		Harness      string `json:"harness"`
+		Params       string `json:"params"`
+		MaxPaths     int    `json:"max-paths"`
+		MaxDecisions int    `json:"max-decisions"`
+		MaxSteps     int64  `json:"max-steps"`
+		Timeout      int    `json:"timeout"`
+		Models       *int   `json:"models"`
+	}
+	var specs []runSpec
+	if *specFile != "" {
+		b, err := os.ReadFile(*specFile)
+		if err != nil {
+			fmt.Fprintln(os.Stderr, err)
+			os.Exit(3)
+		}
+		if err := json.Unmarshal(b, &specs); err != nil {
+			fmt.Fprintln(os.Stderr, "spec:", err)
+			os.Exit(3)
+		}
+	}
 	for _, h := range strings.Split(*run, ",") {
-		h = strings.TrimSpace(h)
-		if h == "" {
-			continue
+		if h = strings.TrimSpace(h); h != "" {
+			specs = append(specs, runSpec{Harness: h, Params: *params})
+		}
+	}
+	baseCfg := E.cfg
+	for _, sp := range specs {
+		h := sp.Harness
+		E.cfg = baseCfg
+		if sp.MaxPaths > 0 {
+			E.cfg.MaxPaths = sp.MaxPaths
+		}
+		if sp.MaxDecisions > 0 {
+			E.cfg.MaxDecisions = sp.MaxDecisions
+		}
+		if sp.MaxSteps > 0 {
+			E.cfg.MaxSteps = sp.MaxSteps
+		}
+		if sp.Timeout > 0 {
+			E.cfg.TimeoutS = sp.Timeout
+		}
+		if sp.Models != nil {
+			E.cfg.ModelSamples = *sp.Models
+		}
+		E.params = map[string]int64{}
+		for _, kv := range strings.Split(sp.Params, ",") {
+			if i := strings.Index(kv, "="); i > 0 {
+				var n int64
+				fmt.Sscan(kv[i+1:], &n)
+				E.params[strings.TrimSpace(kv[:i])] = n
+			}
 		}
 		res, err := E.RunHarness(h)
 		if err != nil {
